@@ -87,7 +87,8 @@ def build():
     ora = os.path.join(odir, "oracle")
     if _newer([os.path.join(C.COQ_SRC, "Conc.v"), os.path.join(C.COQ_SRC, "Model.v"), os.path.join(odir, "driver.ml"),
                os.path.join(odir, "extract.v"), os.path.join(odir, "build.sh")], ora):
-        rc, out = C.sh(["sh", os.path.join(odir, "build.sh"), C.COQ_SRC], timeout=900)
+        with C.GlobalLock("oracle"):
+            rc, out = C.sh(["sh", os.path.join(odir, "build.sh"), C.COQ_SRC], timeout=900)
         if rc != 0 or not os.path.exists(ora):
             return False, "INTERNAL: oracle/conc does not build:\n" + out[-2000:], None
     return True, "", {"l3": l3, "oracle": ora, "sites": nsites, "overlay": ov}
